@@ -49,7 +49,12 @@ def c_tl(l):
 
 
 def c_handle(h):
-    return ctuple(cbool(h[0]), cN(h[1]), cN(h[2]))
+    return ctuple(f"{int(h[0])}%nat", cN(h[1]), cN(h[2]))
+
+
+def result_handle(slot):
+    """the graph a binary operator returned into store number `slot` (2, 3, ...)"""
+    return [slot, 0, 1000 + slot]
 
 
 def fresh_ident(cid):
@@ -74,8 +79,17 @@ class World:
         self.stores = [SimpleMemory() if k0 else Memory(), SimpleMemory() if k1 else Memory()]
         self.idents = {}
         self.graphs = {}
+        self.slots = {}          # store number >= 2 -> the Graph a binary operator returned
+        self.placeholders = {}   # observed before it exists: an empty graph
+        self.next_slot = 2
 
     def graph(self, h):
+        if h[0] >= 2:
+            if h[0] in self.slots:
+                return self.slots[h[0]]
+            if h[0] not in self.placeholders:
+                self.placeholders[h[0]] = Graph()
+            return self.placeholders[h[0]]
         key = tuple(h)
         if key not in self.graphs:
             tok = (h[2], h[1])
@@ -99,6 +113,8 @@ class Histories(Suite):
     # case = {"k0": bool, "k1": bool, "handles": [[store, cid, tok]...], "ops": [[op, probe]...]}
     # op = ["add", h, t] | ["addN", h, [[t, h']...]] | ["rem", h, pat] | ["set", h, t]
     #    | ["iadd", g, h] | ["isub", g, h] | ["bin", "add|sub|mul|xor", g, h]
+    # stores 0 and 1 are the stores of the case; the k-th "bin" of the history creates store 2+k holding the
+    # returned graph, handle result_handle(2+k), which is in play (observed, mutated, used as operand) afterwards
 
     def gen(self, rng, i):
         mode = rng.choice(["mem", "mem", "mem", "mem", "simple", "simple", "mixed"])
@@ -127,9 +143,23 @@ class Histories(Suite):
             else:
                 handles.append([1, rng.choice([1, 2, 3]), tok]); tok += 1
         handles = [list(x) for x in dict.fromkeys(tuple(h) for h in handles)]
+        live = list(handles)            # graphs the operations may use; results of binary operators join it
+        empty = None
+        if not k0 and rng.random() < 0.4:
+            # a graph nobody writes to: empty operands of the set operators
+            empty = [0, 6 - max(h[1] for h in handles if h[0] == 0) if False else next(c for c in [5, 4, 3, 2, 1] if all(h[1] != c for h in handles)), tok]
+            tok += 1
+            handles.append(empty)
+        results = []
+        nbin = 0
 
         def pick():
-            return rng.choice(handles)
+            return rng.choice(live)
+
+        def operand():
+            if empty is not None and rng.random() < 0.35:
+                return empty
+            return rng.choice(live)
 
         def rpat(t):
             return [x if rng.random() < 0.55 else None for x in t]
@@ -152,14 +182,22 @@ class Histories(Suite):
                 op = ["rem", g, rpat(t)]
             elif r < 0.70:
                 op = ["set", g, t]
-            elif r < 0.80:
-                h = pick() if rng.random() < 0.8 else g
+            elif r < 0.78:
+                h = operand() if rng.random() < 0.8 else g
                 op = ["iadd", g, h]
-            elif r < 0.90:
-                h = pick() if rng.random() < 0.8 else g
+            elif r < 0.86:
+                h = operand() if rng.random() < 0.8 else g
                 op = ["isub", g, h]
+            elif nbin < 3:
+                a = operand() if rng.random() < 0.15 else g
+                op = ["bin", rng.choice(["add", "sub", "sub", "mul", "xor"]), a, operand()]
+                res = result_handle(2 + nbin)
+                nbin += 1
+                results.append(res)
+                live.append(res)
+                live.append(res)      # the fresh result is a likely target of what follows
             else:
-                op = ["bin", rng.choice(["add", "sub", "mul", "xor"]), g, pick()]
+                op = ["add", g, t]
             pr = rng.random()
             if pr < 0.6:
                 probe = list(t)
@@ -169,7 +207,7 @@ class Histories(Suite):
                 probe = list(t)
                 probe[rng.choice([0, 1, 2])] = 12   # a term that is nowhere
             ops.append([op, probe])
-        return {"k0": k0, "k1": k1, "handles": handles, "ops": ops}
+        return {"k0": k0, "k1": k1, "handles": handles + results, "ops": ops}
 
     # ------------------------------------------------------------ implementation
     def run_impl(self, case):
@@ -196,7 +234,10 @@ class Histories(Suite):
                     g -= w.graph(op[2])
                 elif kind == "bin":
                     a, b = w.graph(op[2]), w.graph(op[3])
+                    slot = w.next_slot
+                    w.next_slot += 1          # the model numbers the new stores by the operators executed
                     r = {"add": a.__add__, "sub": a.__sub__, "mul": a.__mul__, "xor": a.__xor__}[op[1]](b)
+                    w.slots[slot] = r
                     res = sorted(tids(t) for t in r)
             except Exception:  # noqa: BLE001
                 raised = True
